@@ -782,6 +782,9 @@ class Engine(ExprMixin, CallMixin, BuiltinMixin, VerifyMixin):
         if isinstance(node, ast.Name) and self.is_exc_class(node.id) and node.id not in st.env:
             st = st.copy()
             return [(st, self.new_exc(node.id, st))]
+        if isinstance(node, ast.Attribute) and self.is_exc_class(node.attr) and self.dotted(node, st) is not None:
+            st = st.copy()          # raise module.ExcClass  (handlers match a dotted class by its last name as well)
+            return [(st, self.new_exc(node.attr, st))]
         if isinstance(node, ast.Call):
             fname = node.func.id if isinstance(node.func, ast.Name) else (node.func.attr if isinstance(node.func, ast.Attribute) else None)
             if fname and self.is_exc_class(fname) and fname not in st.env:
